@@ -42,6 +42,36 @@ GO_NAME = {
 
 # focused programs: (form types they exercise, text).  Closed, terminating, printing.
 FOCUS = [
+    # a function with an EXPLICIT provider name w whose body re-binds w (receive payload / cut / case payload): below the
+    # binder, w is the local channel, not the provider (Name.Equal decides where the provider substitution stops)
+    (("ReceiveForm", "name_ops"), """let consume[w : 1, x : 1 * 1] =
+    <w, c> <- recv x;
+    wait w;
+    wait c;
+    print consumed;
+    close self
+prc[a] : 1 = close self
+prc[b] : 1 = close self
+prc[p] : 1 * 1 = send self<a, b>
+prc[q] : 1 = consume(p)
+"""),
+    (("NewForm", "name_ops"), """let mk() : 1 = close self
+let viacut[w : 1] =
+    w <- new mk();
+    wait w;
+    print cut_done;
+    close self
+prc[q] : 1 = viacut()
+"""),
+    (("CaseForm", "BranchForm", "name_ops"), """type sel = +{a : 1}
+let mk() : sel =
+    u : 1 <- new close self;
+    self.a<u>
+let viacase[w : 1, x : sel] =
+    case x ( a<w> => wait w; print case_done; close self )
+prc[s] : sel = mk()
+prc[q] : 1 = viacase(s)
+"""),
     (("ReceiveForm", "SendForm", "CaseForm", "BranchForm"), """type sel = +{a : 1}
 type pair = 1 * sel
 let mk() : sel =
@@ -262,9 +292,26 @@ def search(b, info, prop, limit=3):
         return [], 0
     cases = [(i, "", t) for i, t in cands]
     impl_v = S.run_tool(b.probe, "tc", cases, timeout=600)
-    acc = [(i, t) for i, t in cands if impl_v.get(i, "").split("\t")[0].split(" ")[0] == "ACCEPT"]
+    first = lambda x: x.split("\t")[0].split(" ")[0]
+    # the VERDICT first: a substitution / name comparison that goes wrong inside the checker's own use of it (expansion of
+    # explicit providers, free names of a cut body) flips the verdict of a program the model accepts or rejects
+    model_v = S.run_tool(b.model, "tc", cases, timeout=600)
+    found0 = []
+    for i, t in cands:
+        a, m = first(impl_v.get(i, "MISSING")), first(model_v.get(i, "MISSING"))
+        if a != m and a in ("ACCEPT", "REJECT") and m in ("ACCEPT", "REJECT"):
+            found0.append(C.Violation(
+                "form.go / name.go changed (%s): the checker's verdict on %s is %s, the model's %s" % (
+                    "; ".join(c["go"] for c in info.get("changed", [])[:3]) or (info.get("refused") or {}).get("go", "translator refused"), i, a, m),
+                {"property": prop, "kind": "formops-drift", "program_text": t, "input_hex": R.hexs(t), "case": i,
+                 "observed": {"verdict": a}, "expected_by_model": {"verdict": m}, "verdict": m,
+                 "changed_methods": info.get("changed", [])[:6], "translator_refused": info.get("refused"),
+                 "replay_cmd": "bin/check %s --replay <this file>" % prop}))
+            if len(found0) >= limit:
+                return found0, len(cands)
+    acc = [(i, t) for i, t in cands if first(impl_v.get(i, "")) == "ACCEPT"]
     mres = S.run_tool(b.model, "run-async-0", [(i, "", t) for i, t in acc], timeout=900)
-    found = []
+    found = list(found0)
     ran = 0
     for i, t in acc:
         m = R.parse_model_line(mres.get(i, "MISSING"))
